@@ -128,10 +128,14 @@ def runOps (f : Fr) (prog : List Json) : Except String (List Json × Option Fr) 
       | o => err s!"op {o}"
   pure (outs, cur)
 
+/-- a part of a concatenation: a constructed frame (so `validate` runs) followed by row selections. -/
 def partOf (j : Json) : Except String (Option Fr) := do
   let base ← parseFrame (← j.getObjVal? "frame")
-  let (_, cur) ← runOps base (← getArr j "ops")
-  pure cur
+  match Frame.make ops base.feats base.names base.y base.numRowsOpt with
+  | none => pure none
+  | some b =>
+    let (_, cur) ← runOps b (← getArr j "ops")
+    pure cur
 
 def makeOf (j : Json) : Except String (Option Fr) := do
   let f ← parseFrame j
@@ -152,12 +156,14 @@ def handle (j : Json) : Except String Json := do
     let r := Frame.cat ops (parts.filterMap id) dim
     match j.getObjVal? "eqto" with
     | .ok e =>
-      let whole ← parseFrame e
-      pure (match r with
-        | none => raises
-        | some g => okJ (Json.mkObj [("frame", jFrame g),
-                    ("eq", Frame.eq ops (closeBits false) g whole),
-                    ("eq_rev", Frame.eq ops (closeBits false) whole g)]))
+      match (← partOf e) with
+      | none => pure (Json.str "part-raises")
+      | some whole =>
+        pure (match r with
+          | none => raises
+          | some g => okJ (Json.mkObj [("frame", jFrame g),
+                      ("eq", Frame.eq ops (closeBits false) g whole),
+                      ("eq_rev", Frame.eq ops (closeBits false) whole g)]))
     | .error _ => pure (outFrame r)
   | "eq" =>
     let a ← parseFrame (← j.getObjVal? "a")
@@ -168,10 +174,18 @@ def handle (j : Json) : Except String Json := do
     let order ← natList (← j.getObjVal? "order")
     let bs ← optNat j "bs"
     let dl ← getBool j "drop_last"
-    match Loader.batches order bs dl with
+    -- an explicit `batch_sampler=` hands the index batches over directly
+    let given ← match j.getObjVal? "batches" with
+      | .ok .null => pure none
+      | .ok v => pure (some (← asList natList v))
+      | .error _ => pure none
+    let bssO := match given with
+      | some bss => some bss
+      | none => Loader.batches order bs dl
+    match bssO with
     | none => pure raises
     | some bss =>
-      match Loader.epoch ops f order bs dl with
+      match Loader.collateAll ops f (if given.isSome then some 1 else bs) bss with
       | none => pure (Json.str "collate-raises")
       | some frames =>
         pure (okJ (Json.mkObj [("batches", jList jNats bss), ("frames", jList jFrame frames)]))
